@@ -362,7 +362,12 @@ def run_case(case, rec):
             for k, r in enumerate(rows):
                 for c in "xyz":
                     r[c] = round(r[c] + ((k * 37 + ord(c)) % 89) * 1e-5, 5)
-        df = p2.parse_cif_atoms(emit.emit_cif(rows, label_asym="wide" if wide else "auth", decimals=decimals))
+        drop = ()
+        if fam == "generated" and case["i"] % 8 in (5, 6) and not wide:
+            # a file that carries only one of the two optional author items for names (the other name is in its label_ item)
+            drop = (("auth_comp_id",), ("auth_atom_id",))[case["i"] % 8 - 5]
+            ctx["items-absent"] = list(drop)
+        df = p2.parse_cif_atoms(emit.emit_cif(rows, label_asym="wide" if wide else "auth", decimals=decimals, drop_cols=drop))
     _drive(rec, df, rows, ctx, src)
 
 
